@@ -917,6 +917,14 @@ def r19_bind_scan(text, notes):
         notes.add('R19', 'scan result bound to %s before its for loop' % name)
 
 
+def r22_wildcard_closure_params(text, notes):
+    """R22: a closure whose only parameter is `_` gets a named, unused parameter (`|_|` -> `|_w__|`): Verus rejects `_` there"""
+    new = re.sub(r'\|\s*_\s*\|', '|_w__|', text)
+    if new != text:
+        notes.add('R22', 'wildcard closure parameter named')
+    return new
+
+
 def eta_expand_paths(text, notes):
     """R6 (part): a function path used as a closure is eta-expanded: `.map(ToOwned::to_owned)` -> `.map(|x| { x.to_owned() })`,
     `.map(Pack::pack)` -> `.map(|x| { Pack::pack(x) })`"""
@@ -963,9 +971,11 @@ def apply_rules(text, rules, notes, extra_log_macros=()):
             text = r6_db_scans(text, notes)
         elif r == 'R19':
             text = r19_bind_scan(text, notes)
+        elif r == 'R22':
+            text = r22_wildcard_closure_params(text, notes)
         else:
             raise ExtractError('unknown rule ' + r)
     return text
 
 
-DEFAULT_RULES = ['R1', 'R2', 'R7', 'R8', 'R3', 'R4', 'R16', 'R17', 'R18', 'R6d', 'R10', 'R6w', 'R6t', 'R6e', 'R15', 'R19']
+DEFAULT_RULES = ['R1', 'R2', 'R7', 'R8', 'R3', 'R4', 'R16', 'R17', 'R18', 'R6d', 'R10', 'R6w', 'R6t', 'R6e', 'R22', 'R15', 'R19']
